@@ -211,21 +211,26 @@ def split_scenario(scn):
     for b, en, opn in windows:
         seg = [e for e in per_thread.get(main, []) if b < e["seq"] < en]
         segs.append({"scenario": name, "op": opn, "thread": "main", "events": seg})
-    # background threads: balanced segments (cut whenever nothing is held)
+    # background threads: balanced segments (cut whenever nothing is held).  A release of a lock taken
+    # before the window opened is dropped; a segment still holding a lock when the window closes is
+    # reported as truncated and not turned into a program (it is not an operation's complete program).
     for th, tevs in per_thread.items():
         if th == main:
             continue
-        held, cur = 0, []
+        held, cur = collections.Counter(), []
         for e in tevs:
+            ins = event_instrs(e)
+            if any(k == "Rel" and held[l] <= 0 for k, l, _m in ins) and not any(k != "Rel" for k, _l, _m in ins):
+                continue
             cur.append(e)
-            for k, _l, _m in event_instrs(e):
+            for k, l, _m in ins:
                 if k in ("Acq", "TryAcq"):
-                    held += 1
+                    held[l] += 1
                 elif k == "Rel":
-                    held -= 1
-            if held <= 0 and cur:
+                    held[l] -= 1
+            if sum(held.values()) <= 0 and cur:
                 segs.append({"scenario": name, "op": window_of(cur[0]["seq"]), "thread": "bg", "events": cur})
-                held, cur = 0, []
+                held, cur = collections.Counter(), []
         if cur:
             segs.append({"scenario": name, "op": window_of(cur[0]["seq"]), "thread": "bg", "events": cur,
                          "truncated": True})
@@ -260,6 +265,8 @@ class Analysis:
         # programs
         self.shapes = {}              # tuple(instr) -> shape index
         self.shape_list = []          # [dict(instrs, uses: [(scenario, op, thread)], sample_events)]
+        self.truncated = [s for s in self.segments if s.get("truncated")]
+        self.segments = [s for s in self.segments if not s.get("truncated")]
         for seg in self.segments:
             instrs, evmap = [], []
             for e in seg["events"]:
@@ -814,7 +821,7 @@ def investigate(ctx, an, idx, edge, occs, comp):
         scn = common[0]
         g_a = gate_for(an, oa["shape"], oa["held_at"], 1, 2)
         g_b = gate_for(an, sb_i, g1, 2, None)
-        plan = {"scenario": scn, "watchdog_ms": 5000,
+        plan = {"scenario": scn.split("@@")[0], "watchdog_ms": 5000,
                 "threads": [{"op": op_in_scenario(an, oa["shape"], scn), "gates": [g_a] if g_a else []},
                             {"op": op_in_scenario(an, sb_i, scn), "gates": [g_b] if g_b else [], "start_after": 1}]}
         info["directed_plan"] = plan
@@ -866,16 +873,35 @@ def run(ctx):
         return
     scratch = os.path.join(RUN, "scratch")
     shutil.rmtree(scratch, ignore_errors=True)
-    rc, out = vlib.sh([BIN, "trace", "--out", RUN], timeout=900, env={"C08_SCRATCH": scratch, "RUST_LOG": "off"})
-    ctx.log("trace.log", out)
-    if rc != 0 or not os.path.exists(os.path.join(RUN, "traces.json")):
+    # thorough: the catalogue is run three times (background-thread interleavings differ between runs;
+    # the programs of all runs are pooled)
+    reps = 1 if ctx.tier == "quick" else 3
+    doc, rc, out = None, 0, ""
+    for k in range(reps):
+        tp = os.path.join(RUN, "traces.json")
+        if os.path.exists(tp):
+            os.remove(tp)
+        rc, out = vlib.sh([BIN, "trace", "--out", RUN], timeout=900, env={"C08_SCRATCH": scratch, "RUST_LOG": "off"})
+        ctx.log("trace_%d.log" % k, out)
+        if rc != 0 or not os.path.exists(tp):
+            doc = None
+            break
+        d = json.load(open(tp))
+        if doc is None:
+            doc = d
+        else:
+            for sc in d["scenarios"]:
+                sc["scenario"] = "%s@@%d" % (sc["scenario"], k)
+            doc["scenarios"] += d["scenarios"]
+            doc["ops_run"] += d["ops_run"]
+            doc["panics"] += d["panics"]
+    if doc is None:
         ctx.proof_phase(["Properties/C08.vo"], THEOREMS, pins=PINS)
         kind = "trace-run-hung" if rc == 124 else "trace-run-crashed"
         ctx.violation({"property": "C08", "kind": kind, "rc": rc, "log_tail": out[-3000:],
                        "note": "a single-threaded catalogue run that hangs is itself a self-deadlock (re-acquisition of a held lock)"},
                       no_input=(rc != 124))
         return
-    doc = json.load(open(os.path.join(RUN, "traces.json")))
     an = Analysis(doc)
     edgeset = sorted(an.edges)
     comps = an.sccs(edgeset)
@@ -924,16 +950,16 @@ def run(ctx):
     thms["gen.LockInstance_gen"] = inst_theorems
     proofs_ok = ctx.proof_phase(["Properties/C08.vo", "gen/LockInstance_gen.vo"], thms, pins=PINS)
     rcq, outq = vlib.coq_script(
-        "From Coq Require Import List NArith.\nFrom Kyro Require Import Model.Locks gen.LockProgs_gen gen.LockInstance_gen.\nOpen Scope N_scope.\n"
+        "From Coq Require Import List NArith.\nFrom Kyro Require Import Model.Locks gen.LockProgs_gen gen.LockInstance_gen.\nImport ListNotations.\nOpen Scope N_scope.\n"
         "Goal True. idtac \"@@counts\". Abort.\nEval vm_compute in (length progs, length progs_ok).\n"
         "Goal True. idtac \"@@whole_set_ok\". Abort.\nEval vm_compute in (lock_order_ok progs).\n"
         "Goal True. idtac \"@@rank\". Abort.\nEval vm_compute in (fst (topo (edges progs_ok))).\n"
         "Goal True. idtac \"@@end\". Abort.\n", "c08_counts")
     ctx.log("instance_queries.log", outq)
     tags = vlib.parse_tagged(outq)
-    counts = vlib.parse_numbers(tags.get("counts", "").split(":")[0])[:2]
+    counts = vlib.parse_numbers(tags.get("counts", "").split(": nat")[0])[:2]
     whole_ok = ("true" in tags.get("whole_set_ok", "")) if "whole_set_ok" in tags else None
-    rank_order = vlib.parse_numbers(tags.get("rank", "").split(":")[0])
+    rank_order = vlib.parse_numbers(tags.get("rank", "").split(": list")[0])
     rank_names = [an.name(c) for c in rank_order if 0 < c <= len(an.classes)]
 
     # ---- 4. evidence
@@ -957,6 +983,7 @@ def run(ctx):
         "scenarios": [s["scenario"] for s in doc["scenarios"]],
         "segments": len(an.segments),
         "background_thread_segments": sum(1 for s in an.segments if s["thread"] == "bg"),
+        "truncated_background_segments_dropped": len(an.truncated),
         "distinct_programs": len(an.shape_list),
         "programs_in_instance_theorem": counts[1] if len(counts) > 1 else None,
         "operations_with_no_lock_event": sorted(op for op, shs in shapes_per_op.items() if shs == {()})[:60],
@@ -1009,6 +1036,7 @@ def run(ctx):
                       no_input=not (confirmed or info.get("model_stuck_schedule")))
     if doc.get("panics"):
         ctx.notes.append("operations that panicked in the catalogue run: %s" % doc["panics"][:10])
+    shutil.rmtree(scratch, ignore_errors=True)
     if bad:
         return
     if not proofs_ok:
